@@ -287,10 +287,10 @@ def fm_check(kind, case, rec):
 
 
 FAMILIES = [
-    Family("project", PROJ, proj_check, strategy=proj_strategy, n={"quick": 6, "thorough": 150}, chunk=6, weight=2),
-    Family("extrapolate-topoints", ["quad", "hexahedron", "quad9", "hexahedron27"], ext_check, strategy=ext_strategy, n={"quick": 10, "thorough": 200}, chunk=10),
-    Family("stress", STRESS, stress_check, strategy=stress_strategy, n={"quick": 8, "thorough": 150}, chunk=4, weight=4),
-    Family("force-moment", ["3d", "2d"], fm_check, strategy=fm_strategy, n={"quick": 10, "thorough": 200}, chunk=10),
+    Family("project", PROJ, proj_check, strategy=proj_strategy, n={"quick": 6, "thorough": 800}, chunk=6, weight=2),
+    Family("extrapolate-topoints", ["quad", "hexahedron", "quad9", "hexahedron27"], ext_check, strategy=ext_strategy, n={"quick": 10, "thorough": 1000}, chunk=10),
+    Family("stress", STRESS, stress_check, strategy=stress_strategy, n={"quick": 8, "thorough": 600}, chunk=4, weight=4),
+    Family("force-moment", ["3d", "2d"], fm_check, strategy=fm_strategy, n={"quick": 10, "thorough": 1000}, chunk=10),
 ]
 
 LEVEL_TEXT = (
